@@ -481,6 +481,38 @@ pub fn c18(thorough: bool, rng: &mut Rng, out: &mut Out) {
             }
         }
     }
+    // slow port: the write of a data chunk blocks for longer than the 30 ms pause, and the sign takes
+    // longer than the 100 ms wait to answer with an in-progress report; the pauses are owed *after* the
+    // write / read completes, whatever time the call itself took
+    let a = 3u16;
+    let slow: Vec<(Message<'static>, Option<Message<'static>>, u64, u64)> = vec![
+        (Message::SendData(Offset(0), Data::try_new(vec![1u8; 16]).unwrap()), None, 45, 0),
+        (Message::SendData(Offset(16), Data::try_new(vec![2u8; 3]).unwrap()), None, 80, 0),
+        (Message::QueryState(Address(a)), Some(Message::ReportState(Address(a), State::PageLoadInProgress)), 0, 130),
+        (Message::Hello(Address(a)), Some(Message::ReportState(Address(a), State::PageShowInProgress)), 0, 250),
+        (Message::RequestOperation(Address(a), flipdot_core::Operation::ShowLoadedPage), Some(Message::ReportState(Address(a), State::PageShowInProgress)), 40, 120),
+        (Message::QueryState(Address(a)), Some(Message::ReportState(Address(a), State::PageLoaded)), 40, 120),
+    ];
+    for (m, reply, wms, rms) in slow {
+        let tape = match &reply {
+            Some(r) => {
+                let mut t = Frame::from(r.clone()).to_bytes_with_newline();
+                t.truncate(t.len());
+                hex_of(&t)
+            }
+            None => "0A".to_string(),
+        };
+        let i = out.case(format!("serialts {} {} {} | d:{} |", wms, rms, show_msg(&m), tape), true);
+        out.stat("pace.slowport");
+        let got = out.impls[i].clone();
+        let paced_send = matches!(m, Message::SendData(..));
+        let paced_recv = matches!(reply, Some(Message::ReportState(_, State::PageLoadInProgress)) | Some(Message::ReportState(_, State::PageShowInProgress)));
+        if got.contains(" S:30") != paced_send || got.contains("S:?") {
+            out.fail(i, format!("C18 slow port (write blocks {} ms): 30 ms pause after the completed write observed {}, required {}: {}", wms, got.contains(" S:30"), paced_send, trunc(&got)));
+        } else if got.contains(" S:100") != paced_recv {
+            out.fail(i, format!("C18 slow sign (reply after {} ms): 100 ms wait after the completed read observed {}, required {}: {}", rms, got.contains(" S:100"), paced_recv, trunc(&got)));
+        }
+    }
 }
 
 // ---------------------------------------------------------------------------------------------
